@@ -14,10 +14,11 @@ META = dict(
           'Seeded random sequential histories, traced two-goroutine histories (linearisability) and nested pkg/interp evaluations interrupted '
           'through OS.InterruptChan are validated event by event by TLC trace specs; a two-goroutine driver runs under the Go race detector.'),
     note=('Exhaustive only inside the TLC constants recorded in the evidence (tlc_runs, seq_gen_exhaustive); random histories and OS-scheduled '
-          'interleavings beyond. The PlusCal model is bound to the code by reading (one label per memory access), by the sequential GEN/TV arms '
-          'and by the race detector, not by replaying TLC schedules through scheduler gates unless repo_patches/C20-hooks.diff is applied. '
-          'Data races are found by the Go race detector on the schedules that actually occurred. Known defects of the pinned tree: D7 '
-          '(unsynchronised cancelFns: race + index crash) and D20 (late finish re-slices cancelFns), recognised by signature.'),
+          'interleavings beyond. The PlusCal model is bound to the code by reading (one label per memory access), by the sequential GEN/TV arms, '
+          'by linearisability checking of traced two-goroutine histories and by the race detector; TLC\'s NoCrash counterexample schedule is '
+          'replayed through scheduler gates on the real code only when the verifHook call sites (repo_patches/C20-hooks.diff) are in the tree '
+          '(evidence: gate_replay). Data races are those the Go race detector sees on the schedules that actually occurred. Known defects of '
+          'the pinned tree: D7 (unsynchronised cancelFns: race + index crash) and D20 (late finish re-slices cancelFns), recognised by signature.'),
     technique=('TLA+/PlusCal spec (CtxStack.tla) + TLC exhaustive MC of the as-built and repaired designs + TLC-emitted operation sequences '
                'replayed on ctxstack.Stack + TLC trace validation of sequential, concurrent (linearisability) and interp-level histories + '
                'Go race detector on a two-goroutine driver'),
